@@ -97,6 +97,21 @@ def gen_case(rng):
                         c["o"][n] = rng.choice([-1000.0, -9999.0])
         if st["has_elev"] and rng.random() < 0.5:
             inp["locs"][0][3] = -1200.0
+    # decimal values with more digits than single precision holds: a text file's numbers are read as doubles, in every field
+    if rng.random() < 0.3:
+        DEC = [0.1, 2.3, 1234.5678, 0.123456789, -7.000001, 1e-05, 273.15, 99.99999]
+        for c in inp["cells"].values():
+            for f in ("obs", "fcst", "pit"):
+                if c.get(f) is not None and rng.random() < 0.5:
+                    c[f] = rng.choice(DEC) if f != "pit" else rng.choice([0.1, 0.123456789, 0.7, 0.99999])
+            for f in ("p", "q", "e"):
+                if c.get(f):
+                    c[f] = [v if (v is None or rng.random() < 0.5) else (rng.choice(DEC) if f != "p" else rng.choice([0.1, 0.3, 0.123456789]))
+                            for v in c[f]]
+            if c.get("o"):
+                for n in c["o"]:
+                    if c["o"][n] is not None and rng.random() < 0.5:
+                        c["o"][n] = rng.choice(DEC)
     # rows of one station that disagree on its latitude (verif warns and keeps the first): values must survive
     if st["has_loc"] and st["latlon"] and rng.random() < 0.15:
         st["conflict"] = {gen.fnum(l[0]): 0.5 for l in rng.sample(inp["locs"], 1)}
